@@ -69,10 +69,53 @@ def expectedPhasent (rows : Rows) (files : List (String × String)) (fl : List S
   let fs := (fileOf (opt fl "--nt-output") codon ++ fileOf (opt fl "--aa-output") aa).mergeSort fun a b => decide (a.1 ≤ b.1)
   some ("rc=0 out=" ++ fasta nt ++ " files=" ++ ";;".intercalate (fs.map fun f => f.1 ++ "=" ++ f.2))
 
+/-- `goalign phase --unaligned --ref-orf <file> --match-cutoff -1 --aa-output <f> …` (amino-acid mode: the model
+`phaseAAOfRefs`); stdout holds the trimmed nucleotides, the file the amino acids -/
+def expectedPhase (rows : Rows) (files : List (String × String)) (fl : List String) : Option String := do
+  let reff ← opt fl "--ref-orf"
+  let rf ← files.find? (·.1 == reff)
+  let refs := parseFasta (rf.2.splitOn "|")
+  if refs.isEmpty || opt fl "--match-cutoff" != some "-1" then none else
+  let tbl ← geneticCode (match (opt fl "--genetic-code").getD ((CliDefaults.effective "phaseCmd" "genetic-code").getD "standard") with
+    | "standard" => 0 | "mitov" => 1 | "mitoi" => 2 | _ => 99)
+  let half (v : String) : Option Int :=
+    let neg := v.startsWith "-"
+    let body := if neg then (v.drop 1).toString else v
+    (match body.splitOn "." with
+     | [a] => a.toNat?.map fun x => (2 * x : Nat)
+     | [a, "5"] => a.toNat?.map fun x => 2 * x + 1
+     | [a, "0"] => a.toNat?.map fun x => 2 * x
+     | _ => none).map fun n => if neg then -(n : Int) else (n : Int)
+  let go ← half ((opt fl "--gap-open").getD (← CliDefaults.effective "phaseCmd" "gap-open"))
+  let ge ← half ((opt fl "--gap-extend").getD (← CliDefaults.effective "phaseCmd" "gap-extend"))
+  let c : NTCfg := { den := 2, gapopen := go, gapextend := ge, scores := none, reverse := flag fl "--reverse",
+                     cutend := flag fl "--cut-end", fixed := true, alphaFixed := true }
+  let badF := "rc=1 out= files="
+  -- the reference file is read as unaligned nucleotide sequences: alphabet NUCLEOTIDS
+  -- (`none` = Phase() itself refused the references: every sequence of the input fails alike)
+  let outs : List (String × NTOut) := rows.map fun r =>
+    (r.1, (phaseAAOfRefs c tbl NUCLEOTIDS (refs.map (·.2)) r.2).getD NTOut.err)
+  if outs.any (fun o => match o.2 with | .err => true | .panic => true | .ok p _ => p.aa.isNone | .removed _ => false) then
+    some badF
+  else
+  let kept := outs.filterMap fun o => match o.2 with | .ok p _ => some (o.1, p) | _ => none
+  let nt := kept.map fun k => (k.1, k.2.nt)
+  let aa := kept.map fun k => (k.1, k.2.aa.getD [])
+  let fs := match opt fl "--aa-output" with | some n => n ++ "=" ++ fasta aa | none => ""
+  some ("rc=0 out=" ++ fasta nt ++ " files=" ++ fs)
+
 def handle : Handler := fun op args impl =>
   match op, args with
   | "cli_lib", stdin :: "orf" :: fl =>
     match expectedOrf (parseFasta (stdin.splitOn "|")) fl with
+    | some m => some ⟨m, verdictOf (impl == m) "command-line-differs-from-library-model"⟩
+    | none => some ⟨"unmodelled", "na"⟩
+  | "cli_libf", stdin :: files :: "phase" :: fl =>
+    let fs := if files == "_" then [] else (files.splitOn ";;").filterMap fun f =>
+      match f.splitOn "=" with
+      | n :: rest => some (n, "=".intercalate rest)
+      | _ => none
+    match expectedPhase (parseFasta (stdin.splitOn "|")) fs fl with
     | some m => some ⟨m, verdictOf (impl == m) "command-line-differs-from-library-model"⟩
     | none => some ⟨"unmodelled", "na"⟩
   | "cli_libf", stdin :: files :: "phasent" :: fl =>
